@@ -165,7 +165,10 @@ pub fn run_shape<R: RecUni>(
     if spec.kind == "uni" {
         let (proof, pis) = match crate::core::pool::observe(|| R::uni_prove_fib(s, spec.log_n)) {
             Ok(x) => x,
-            Err(_) => {
+            Err(pm) => {
+                if std::env::var("VERIF_DUMP_SKIPPED").is_ok() {
+                    eprintln!("PROVERPANIC idx={idx} {} :: {}", serde_json::to_string(spec).unwrap_or_default(), pm.chars().take(300).collect::<String>());
+                }
                 out.count("honest_prover_panicked_shape_skipped");
                 return;
             }
@@ -463,24 +466,35 @@ pub fn base_runs(tier: Tier) -> u64 {
 }
 pub const SWEEP_RUNS: u64 = 2 * (crate::reccustom::N_ORDERS + crate::reccustom::N_UNI_KINDS) as u64;
 
+/// Shape of sweep run `k` (0..SWEEP_RUNS): custom-AIR universe (even k: TwoAdicFriPcs, odd k: the
+/// hiding PCS), AIR list `k/2` of the batch arm, then uni-STARK AIR kind `k/2 - N_ORDERS`.
+pub fn sweep_shape(rng: &mut Rng, tier: Tier, k: usize) -> (&'static str, ShapeSpec) {
+    let uni = if k % 2 == 0 { "U-KB4-CUSTOM" } else { "U-KB4-CUSTOM-ZK" };
+    let which = k / 2;
+    let batch = which < crate::reccustom::N_ORDERS;
+    let mut spec = crate::with_rec_universe!(uni, U, draw_shape::<U>(rng, tier, Some(if batch { "batch" } else { "uni" })));
+    // the degree-5 AIR (lists 0..2, uni kind 6) needs the largest blow-up, above all with the
+    // hiding PCS's extra constraint degree; a smaller one is a parameter error, not a shape
+    if which < 3 || which == crate::reccustom::N_ORDERS + 6 {
+        spec.fri.log_blowup = 3;
+    }
+    if batch {
+        // the custom universes read the AIR list off the number of calls
+        spec.program = Some(crate::gprog::Program { calls: (0..which).map(|_| crate::gprog::Call::Public).collect(), publics: (0..which).map(|_| vec![1]).collect(), privates: vec![] });
+    } else {
+        let want = which - crate::reccustom::N_ORDERS;
+        let lo = (spec.fri.log_final_poly_len + 1).max(3);
+        spec.log_n = (lo..lo + crate::reccustom::N_UNI_KINDS).find(|l| crate::reccustom::uni_kind_index(&spec.fri, *l) == want).unwrap_or(lo);
+    }
+    (uni, spec)
+}
+
 pub fn one_run(ctx: &Ctx, idx: u64, out: &mut RunOut) {
     let mut rng = Rng::new(ctx.seed, "C01", idx);
     foldhash::sim::set_seed(mix(ctx.seed, idx));
     let base = base_runs(ctx.tier);
     if idx >= base {
-        let k = (idx - base) as usize;
-        let uni = if k % 2 == 0 { "U-KB4-CUSTOM" } else { "U-KB4-CUSTOM-ZK" };
-        let which = k / 2;
-        let batch = which < crate::reccustom::N_ORDERS;
-        let mut spec = crate::with_rec_universe!(uni, U, draw_shape::<U>(&mut rng, ctx.tier, Some(if batch { "batch" } else { "uni" })));
-        if batch {
-            // the custom universes read the AIR list off the number of calls
-            spec.program = Some(crate::gprog::Program { calls: (0..which).map(|_| crate::gprog::Call::Public).collect(), publics: (0..which).map(|_| vec![1]).collect(), privates: vec![] });
-        } else {
-            let want = which - crate::reccustom::N_ORDERS;
-            let lo = (spec.fri.log_final_poly_len + 1).max(3);
-            spec.log_n = (lo..lo + crate::reccustom::N_UNI_KINDS).find(|l| crate::reccustom::uni_kind_index(&spec.fri, *l) == want).unwrap_or(lo);
-        }
+        let (uni, spec) = sweep_shape(&mut rng, ctx.tier, (idx - base) as usize);
         out.count("custom_air_sweep_runs");
         crate::with_rec_universe!(uni, U, run_shape::<U>(ctx.seed, idx, &spec, ctx.tier, None, out));
         return;
